@@ -13,7 +13,8 @@
 //  * roaring::MultiOps on arrays of bitmap references: `[a, b, ..].difference()` is a minus all the
 //    others, `[a, b].intersection()` the common elements;
 //  * RoaringBitmap::from_iter([x]) on a one-element array; u32::try_from(u32) (reflexive, infallible);
-//  * slice::sort_unstable_by_key / Vec::dedup for make_transitions_image.
+//  * slice::sort_unstable_by_key / Vec::dedup, InpInternPool::ids and the key set of an inner map for
+//    make_transitions_image (rules R52 - R54).
 verus! {
 
 #[verifier::external_body]
@@ -165,14 +166,42 @@ pub fn __stateid_from_u32(x: u32) -> (r: u32)
     ensures r == x
 { unimplemented!() }
 
-/// Stand-in for DFA::make_transitions_image (ASSUMED for now): every transition of the table, plus a
-/// transition into the dead state for every (state with a row, symbol of the pool without a cell),
-/// sorted by target.
-impl DFA {
+/// `tos.keys().cloned().collect::<IndexSet<InpId>>()`: the keys of an inner map of the table
+#[verifier::external_body]
+pub fn __imap_key_set(m: &IndexMap<InpId, u32>) -> (r: IndexSet<InpId>)
+    ensures forall|k: InpId| has_key(r@, k) <==> m@.contains_key(k)
+{ unimplemented!() }
+
+impl IndexSet<InpId> {
     #[verifier::external_body]
-    fn make_transitions_image(&self) -> (r: Vec<Transition>)
-        ensures image_ok(*self, r@)
+    pub fn contains(&self, k: &InpId) -> (r: bool)
+        ensures r == has_key(self@, *k)
     { unimplemented!() }
 }
+
+impl InpInternPool {
+    /// `ids()` (`(0..len).map(|i| InpId(i as _))`): the ids of the pool in order
+    #[verifier::external_body]
+    fn ids(&self) -> (r: Vec<InpId>)
+        ensures r@.len() == self@.len(), forall|i: int| 0 <= i < r@.len() ==> #[trigger] r@[i] == id_of(i)
+    { unimplemented!() }
+}
+
+/// `v.sort_unstable_by_key(|transition| transition.to)`: the same elements, ascending by target
+#[verifier::external_body]
+fn __sort_by_to(v: &mut Vec<Transition>)
+    ensures
+        sorted_by_to(final(v)@),
+        forall|t: Transition| final(v)@.contains(t) <==> old(v)@.contains(t),
+{ unimplemented!() }
+
+/// `v.dedup()` (derived PartialEq of Transition: all three fields): consecutive repetitions removed;
+/// the same elements, order kept
+#[verifier::external_body]
+fn __dedup_transitions(v: &mut Vec<Transition>)
+    ensures
+        sorted_by_to(old(v)@) ==> sorted_by_to(final(v)@),
+        forall|t: Transition| final(v)@.contains(t) <==> old(v)@.contains(t),
+{ unimplemented!() }
 
 } // verus!
